@@ -258,7 +258,7 @@ def gen_search(rng, tier, ruledb=None, flavour=None):
         "clock": clock,
         "rng": rg,
         "ops": ops,
-        "nmax": 6 if len(world["alphabet"]) == 2 else 5,
+        "nmax": (7 if tier == "thorough" else 6) if len(world["alphabet"]) == 2 else 5,
         "order_seed": rng.randrange(1 << 30),
         "fault_free": fault_free,
     }
